@@ -112,6 +112,13 @@ def main():
         help="also run every check on a copy in which every constant-template .format() call is rewritten as an f-string "
         "(selftest/fstring.py; the suite passes on that copy): template recognisers must not depend on the spelling",
     )
+    ap.add_argument(
+        "--modernise",
+        action="store_true",
+        help="also run every check on a copy that went through a style sweep (selftest/modernise.py: tuple() -> (), "
+        "not a == b -> a != b, membership in frozenset((..)) -> set literal, else after return removed, drained maps "
+        "as loops, conditional-expression statements as if/else, constant frozensets hoisted; the suite passes on it)",
+    )
     a = ap.parse_args()
     from mutants import MUTANTS
 
@@ -196,6 +203,22 @@ def main():
                     r = subprocess.run([os.path.join(VERIF, "check"), p, "--root", os.path.join(tmp, "r"), "--evidence-dir", os.path.join(tmp, "ev"), "--quiet"], capture_output=True, text=True)
                     if r.returncode != 0:
                         print("FSTRING-TREE {} exit {} (wanted 0): {}".format(p, r.returncode, "\n".join(l for l in (r.stdout + r.stderr).splitlines() if not l.startswith("KNOWN"))[-400:]))
+                        bad += 1
+        finally:
+            shutil.rmtree(tmp, ignore_errors=True)
+    if a.modernise:
+        tmp = tempfile.mkdtemp(prefix="cddmod_")
+        try:
+            r = subprocess.run([sys.executable, os.path.join(HERE, "modernise.py"), a.repo, os.path.join(tmp, "r")], capture_output=True, text=True)
+            if r.returncode != 0 or "SYNTAX" in r.stdout:
+                print("MODERNISE-REWRITE failed: {}".format((r.stdout + r.stderr)[-300:]))
+                bad += 1
+            else:
+                os.makedirs(os.path.join(tmp, "ev"))
+                for p in sorted({m["prop"] for m in muts}):
+                    r = subprocess.run([os.path.join(VERIF, "check"), p, "--root", os.path.join(tmp, "r"), "--evidence-dir", os.path.join(tmp, "ev"), "--quiet"], capture_output=True, text=True)
+                    if r.returncode != 0:
+                        print("MODERNISED-TREE {} exit {} (wanted 0): {}".format(p, r.returncode, "\n".join(l for l in (r.stdout + r.stderr).splitlines() if not l.startswith("KNOWN"))[-400:]))
                         bad += 1
         finally:
             shutil.rmtree(tmp, ignore_errors=True)
